@@ -11,6 +11,9 @@ for p in ALL:
     except ModuleNotFoundError:
         na.append({"property_id": p, "reason": "check not built yet in this revision of /verif (planned: Lean 4 proof + correspondence, see DESIGN.md section 7)"})
         continue
+    if not getattr(m, "THEOREMS", []):
+        na.append({"property_id": p, "reason": "correspondence check and property oracle are built (./check %s runs), but no theorem is proved yet in this revision, so the property is not claimed at proof level; see DESIGN.md" % p})
+        continue
     checks.append({
         "property_id": p,
         "quick_cmd": "./check %s --tier quick" % p,
